@@ -2,7 +2,7 @@
 import inspect
 import random as _random
 
-from core.rng import ScriptedRandom, patched
+from core.rng import ScriptedRandom, SemanticRandom, installed, patched
 
 # ---- build callbacks that exist verbatim in the Lean driver (GcmpyModel/Driver/Gen.lean `shape`)
 
@@ -187,6 +187,23 @@ class ShuffleScript:
         self.unscripted += 1  # a list the model does not expect: leave it as it is
 
 
+class GenRandom(SemanticRandom):
+    """the generators' randomness: one uniformly random permutation per stub list, whatever function draws it.  The scripted
+    permutation of a stub list is the one the stdlib Fisher-Yates produces from the case's draws for that column."""
+
+    def __init__(self, jds, draws):
+        super().__init__()
+        self.script = ShuffleScript(jds, draws)
+
+    def on_permutation(self, items, ctx):
+        y = list(items)
+        before = len(self.script.calls)
+        self.script(y)
+        if len(self.script.calls) == before:          # not one of the expected stub lists
+            return super().on_permutation(items, ctx)
+        return y
+
+
 def tuplify(jds):
     return [tuple(r) for r in jds]
 
@@ -232,10 +249,11 @@ def run_generator(case, path="direct", algo=None):
     else:
         params[GN.GCM_TYPE] = typ.value
         algo_obj = GCMAlgorithmMain.load_gcm_algorithm(params)
-    script = ShuffleScript(case["jds"], case["draws"])
-    with patched(random, "shuffle", script):
+    sem = GenRandom(case["jds"], case["draws"])
+    script = sem.script
+    with installed(sem):
         out = algo_obj.random_clustered_graph(jds)
-    obs = {"class": type(algo_obj).__name__, "unscripted_shuffles": script.unscripted,
+    obs = {"class": type(algo_obj).__name__, "unscripted_shuffles": len(sem.unexpected),
            "shuffles_missing": sorted(set(range(len(case["draws"]))) - script.used)}
     obs["calls"] = [{"top": c["top"], "verts": c["verts"], "result_is_bare": _is_bare(c["result"]),
                      "result": _rows(c["result"])} for c in calls]
